@@ -4,6 +4,7 @@ import (
 	"encoding/json"
 	"fmt"
 	"os"
+	"os/exec"
 	"sort"
 	"strings"
 	"testing"
@@ -134,6 +135,7 @@ type ScenarioDef struct {
 	Gen    func(r *Rand, g GenCfg) Plan
 	Exec   func(t *testing.T, p Plan, seed uint64, o *Outcome)
 	Decode func(b []byte) (Plan, error)
+	Fresh  bool // every replay / minimiser candidate needs a fresh process (race reports are de-duplicated per process)
 }
 
 var scenarios = map[string]*ScenarioDef{}
@@ -254,6 +256,10 @@ func Minimise(t *testing.T, d *ScenarioDef, p Plan, seed uint64, key string, max
 	cand := 0
 	fails := func(q Plan) bool {
 		cand++
+		if d.Fresh {
+			keys, err := probeFresh(d, q, seed)
+			return err == nil && keys[key]
+		}
 		o := RunPlan(t, d, q, seed, false)
 		return o.HarnessErr == "" && hasKey(o, key) != nil
 	}
@@ -322,6 +328,54 @@ func Minimise(t *testing.T, d *ScenarioDef, p Plan, seed uint64, key string, max
 	}
 	return p, cand
 }
+
+// probeFresh executes a plan in a fresh copy of this worker process and
+// returns the violation keys it showed.
+func probeFresh(d *ScenarioDef, q Plan, seed uint64) (map[string]bool, error) {
+	dir, err := os.MkdirTemp(currentJob.ReplayDir, "probe-")
+	if err != nil {
+		return nil, err
+	}
+	defer os.RemoveAll(dir)
+	pj, _ := json.Marshal(q)
+	rf := ReplayFile{Scenario: d.Name, Seed: seed, Plan: pj}
+	rb, _ := json.Marshal(rf)
+	rpath := dir + "/plan.json"
+	os.WriteFile(rpath, rb, 0o644)
+	job := *currentJob
+	job.Mode, job.Replay, job.Out = "probe", rpath, dir+"/res.json"
+	jb, _ := json.Marshal(job)
+	os.WriteFile(dir+"/job.json", jb, 0o644)
+	exe, err := os.Executable()
+	if err != nil {
+		return nil, err
+	}
+	cmd := exec.Command(exe, "-test.run", "^TestWorker$", "-test.cpu", "1")
+	cmd.Env = append(os.Environ(), "DSIM_JOB="+dir+"/job.json")
+	for i, e := range cmd.Env {
+		if strings.HasPrefix(e, "GORACE=") {
+			cmd.Env[i] = "GORACE=halt_on_error=0 atexit_sleep_ms=0 log_path=" + dir + "/race"
+		}
+	}
+	if out, err := cmd.CombinedOutput(); err != nil {
+		return nil, fmt.Errorf("probe process failed: %v: %s", err, out)
+	}
+	b, err := os.ReadFile(job.Out)
+	if err != nil {
+		return nil, err
+	}
+	var res Result
+	if err := json.Unmarshal(b, &res); err != nil {
+		return nil, err
+	}
+	keys := map[string]bool{}
+	for k := range res.ViolCount {
+		keys[k] = true
+	}
+	return keys, nil
+}
+
+var currentJob *Job
 
 // ---------------------------------------------------------------------------
 // Worker jobs
@@ -408,7 +462,38 @@ func RunJob(t *testing.T, job *Job) *Result {
 		res.HarnessErr = "unknown scenario " + job.Scenario
 		return res
 	}
+	currentJob = job
 	start := time.Now()
+	if job.Mode == "probe" {
+		// execute one plan, report the violation keys, nothing else
+		b, err := os.ReadFile(job.Replay)
+		if err != nil {
+			res.HarnessErr = err.Error()
+			return res
+		}
+		var rf ReplayFile
+		if err := json.Unmarshal(b, &rf); err != nil {
+			res.HarnessErr = err.Error()
+			return res
+		}
+		plan, err := d.Decode(rf.Plan)
+		if err != nil {
+			res.HarnessErr = err.Error()
+			return res
+		}
+		o := RunPlan(t, d, plan, rf.Seed, false)
+		res.Runs = 1
+		res.HarnessErr = o.HarnessErr
+		for _, v := range o.Viol {
+			res.ViolCount[v.Key()]++
+		}
+		return res
+	}
+	if job.Mode == "minimise" {
+		minimiseFile(t, d, job, res)
+		res.WallS = time.Since(start).Seconds()
+		return res
+	}
 	if job.Mode == "replay" {
 		res.Replayed = replayFile(t, d, job, res)
 		res.WallS = time.Since(start).Seconds()
@@ -496,12 +581,24 @@ func RunJob(t *testing.T, job *Job) *Result {
 				continue
 			}
 			reported[k] = true
+			if job.NoMin {
+				path := saveReplay(job, d, plan, plan, seed, i, v, o, 0)
+				res.Violations = append(res.Violations, ViolationReport{Violation: v, Replay: path, Steps: plan.Len(), Seed: seed, RunIndex: i})
+				continue
+			}
 			min, cand := plan, 0
 			if !job.NoMin && !o.Aborted {
 				min, cand = Minimise(t, d, plan, seed, k, 2000, 60*time.Second)
 			}
 			om := RunPlan(t, d, min, seed, true)
 			mv := hasKey(om, k)
+			if mv == nil && d.Fresh {
+				// a race report cannot repeat in this process; the fresh-process probe is the judge
+				if keys, err := probeFresh(d, min, seed); err == nil && keys[k] {
+					vv := v
+					mv = &vv
+				}
+			}
 			if mv == nil && (v.Clause == "memory" || v.Clause == "no-termination") {
 				// real-time / sampled-memory violations must reproduce to count
 				res.Unreproduced = append(res.Unreproduced, k+": "+v.Detail)
@@ -574,6 +671,39 @@ func sanitize(s string) string {
 		}
 		return '_'
 	}, s)
+}
+
+// minimiseFile shrinks the plan of an (unminimised) replay file; used for
+// scenarios whose candidates need fresh processes, once per violation class.
+func minimiseFile(t *testing.T, d *ScenarioDef, job *Job, res *Result) {
+	b, err := os.ReadFile(job.Replay)
+	if err != nil {
+		res.HarnessErr = err.Error()
+		return
+	}
+	var rf ReplayFile
+	if err := json.Unmarshal(b, &rf); err != nil {
+		res.HarnessErr = err.Error()
+		return
+	}
+	plan, err := d.Decode(rf.Plan)
+	if err != nil {
+		res.HarnessErr = err.Error()
+		return
+	}
+	key := rf.Violation.Key()
+	min, cand := Minimise(t, d, plan, rf.Seed, key, 600, 120*time.Second)
+	om := RunPlan(t, d, min, rf.Seed, true)
+	v := rf.Violation
+	if mv := hasKey(om, key); mv != nil {
+		v = *mv
+	} else if keys, err := probeFresh(d, min, rf.Seed); err != nil || !keys[key] {
+		// keep the original
+		min, cand = plan, 0
+	}
+	job.BaseSeed = rf.BaseSeed
+	path := saveReplay(job, d, plan, min, rf.Seed, rf.RunIndex, v, om, cand)
+	res.Violations = append(res.Violations, ViolationReport{Violation: v, Replay: path, Steps: min.Len(), Seed: rf.Seed, RunIndex: rf.RunIndex})
 }
 
 func replayFile(t *testing.T, d *ScenarioDef, job *Job, res *Result) *ReplayResult {
